@@ -30,6 +30,18 @@ var ControlBases = map[string]string{
 	"refactored T07-1: join keeps the caller's slice":                                "T07-1",
 	"refactored T01-4: zero precision ignored in the early-return form":              "T01-4",
 	"refactored T07-4: one-error shortcut next to the nil shortcut":                  "T07-4",
+	"refactored U01-1: leaf predicate hoisted without the multi-cause conjunct":      "U01-1",
+	"refactored U02-3: payload helper accepts an empty mark":                         "U02-3",
+	"refactored U04-2: generic-path helper escapes the safe details":                 "U04-2",
+	"refactored U04-2: shared helper keys the registries by the original name":       "U04-2",
+	"refactored U04-3: wrapper payload decoded only when it has bytes":               "U04-3",
+	"refactored U06-4: transport-code helper lets OK through":                        "U06-4",
+	"refactored U07-2: formatting helper skipped without arguments":                  "U07-2",
+	"refactored U08-2: split helper cuts at the first colon":                         "U08-2",
+	"refactored U08-3: extracted helper builds the frames itself":                    "U08-3",
+	"refactored U09-4: appending helper keeps empty hints":                           "U09-4",
+	"refactored U10-1: link operands swapped at the shared helper's call":            "U10-1",
+	"refactored U10-1: shared helper separates operands with a colon":                "U10-1",
 }
 
 // CleanVariant as a Control's Rule marks a behaviour-preserving variant (a
@@ -164,7 +176,7 @@ var Controls = []Control{
 	{"C20", "context status returned instead of the handler's error", "grpc/middleware/server.go", `\tst, ok := status\.FromError\(err\)\n`, "\tif ctx.Err() != nil {\n\t\treturn resp, status.New(codes.Canceled, \"canceled\").Err()\n\t}\n\tst, ok := status.FromError(err)\n", "R-GRPC-FLOW"},
 	{"C20", "OK code no longer replaced", "grpc/middleware/server.go", `\t\tif code == codes\.OK \{\n(.*?)\n\t\t\tcode = codes\.Unknown\n\t\t\}\n`, "\t\t_ = codes.OK\n", "R-GRPC-FLOW"},
 	{"C19", "format stored verbatim without arguments", "hintdetail/hintdetail.go", `\treturn &withHint\{cause: err, hint: fmt\.Sprintf\(format, args\.\.\.\)\}`, "\tif len(args) == 0 {\n\t\treturn &withHint{cause: err, hint: format}\n\t}\n\treturn &withHint{cause: err, hint: fmt.Sprintf(format, args...)}", "R-FORMAT-STORED"},
-	{"C01", "barrier decoder ignores the wire message", "barriers/barriers.go", `return &barrierErr\{smsg: redact\.RedactableString\(msg\), maskedErr: errbase\.DecodeError\(ctx, \*enc\)\}`, "masked := errbase.DecodeError(ctx, *enc)\n\treturn &barrierErr{smsg: redact.Sprint(masked), maskedErr: masked}", "R-CODEC"},
+	{"C01", "barrier decoder ignores the wire message", "barriers/barriers.go", `return &barrierErr\{smsg: redact\.RedactableString\(msg\), maskedErr: errbase\.DecodeError\(ctx, \*enc\), receivedDetails: details\}`, "masked := errbase.DecodeError(ctx, *enc)\n\treturn &barrierErr{smsg: redact.Sprint(masked), maskedErr: masked, receivedDetails: details}", "R-CODEC"},
 	{"C05", "opaque multi-cause leaf handed to a registered encoder", "errbase/encode.go", `\t\} else if e, ok := err\.\(\*opaqueLeafCauses\); ok \{\n\t\tmsg = e\.msg\n\t\tdetails = e\.details\n`, "", "R-OPAQUE-TRANSPORT"},
 	{"C10", "As looks into branches of the outermost error only", "errutil/as.go", `errbase\.UnwrapMulti\(c\)`, `errbase.UnwrapMulti(err)`, "R-WALK-MULTI"},
 	// round 3
@@ -185,7 +197,7 @@ var Controls = []Control{
 	{"C19", "tags walked with the standard library's Unwrap", "contexttags/contexttags.go", `(import \(\n\t"context"\n)(.*?)for e := err; e != nil; e = errbase\.UnwrapOnce\(e\) \{`, "${1}\tstderrors \"errors\"\n${2}for e := err; e != nil; e = stderrors.Unwrap(e) {\n\t\t_ = errbase.UnwrapOnce", "R-STD-IDENTITY"},
 	{"C10", "wire prefix used as a format by the pkg/errors decoder", "errbase/adapters.go", `return pkgErr\.WithMessage\(cause, msgPrefix\)`, `return pkgErr.WithMessagef(cause, msgPrefix)`, "R-FORMAT-ARG"},
 	{"C01", "wire prefix used as a format by the pkg/errors decoder", "errbase/adapters.go", `return pkgErr\.WithMessage\(cause, msgPrefix\)`, `return pkgErr.WithMessagef(cause, msgPrefix)`, "R-FORMAT-ARG"},
-	{"C06", "legacy barrier decoder trusts the plain message as redactable", "barriers/barriers.go", `func decodeBarrierPrev\(ctx context\.Context, msg string, _ \[\]string, payload proto\.Message\) error \{\n.*?\n\}\n`, "func decodeBarrierPrev(ctx context.Context, msg string, details []string, payload proto.Message) error {\n\treturn decodeBarrier(ctx, msg, details, payload)\n}\n", "R-TAINT/redactable"},
+	{"C06", "legacy barrier decoder trusts the plain message as redactable", "barriers/barriers.go", `func decodeBarrierPrev\(ctx context\.Context, msg string, details \[\]string, payload proto\.Message\) error \{\n.*?\n\}\n`, "func decodeBarrierPrev(ctx context.Context, msg string, details []string, payload proto.Message) error {\n\treturn decodeBarrier(ctx, msg, details, payload)\n}\n", "R-TAINT/redactable"},
 	{"C03", "own text declared safe on an Is match alone", "errutil/format_error_special.go", `if markers\.Is\(err, ref\) && err\.Error\(\) == ref\.Error\(\) \{\n\t\t\t\tp\.Print\(redact\.Safe\(ref\.Error\(\)\)\)`, "if markers.Is(err, ref) {\n\t\t\t\tp.Print(redact.Safe(err.Error()))", "R-SPECIAL-LEAF"},
 	{"C03", "own text declared safe after comparing it with the sentinel's", "errutil/format_error_special.go", `p\.Print\(redact\.Safe\(ref\.Error\(\)\)\)`, `p.Print(redact.Safe(err.Error()))`, CleanVariant},
 	{"C20", "code invented for uncoded errors", "extgrpc/ext_grpc.go", `\treturn codes\.Unknown\n\}\n\n// it's an error\.`, "\treturn codes.Code(uint32(len(err.Error())) % 17)\n}\n\n// it's an error.", "R-CODE-GETTER"},
@@ -256,4 +268,21 @@ var Controls = []Control{
 	{"C13", "join keeps only arguments with a text", "join/join.go", `\t\tif err != nil \{\n\t\t\te\.errs = append\(e\.errs, err\)`, "\t\tif err != nil && err.Error() != \"\" {\n\t\t\te.errs = append(e.errs, err)", "R-JOIN-FILTER"},
 	{"C15", "report visitor skips empty multi-cause nodes", "report/report.go", `func visitAllMulti\(err error, f func\(error\)\) \{\n\tf\(err\)`, "func visitAllMulti(err error, f func(error)) {\n\tif _, isMulti := err.(interface{ Unwrap() []error }); isMulti && len(errbase.UnwrapMulti(err)) == 0 {\n\t\treturn\n\t}\n\tf(err)", "R-VISIT-ALL"},
 	{"C03", "report tagged with the error text", "report/report.go", `\tfor key, value := range tags \{`, "\ttags[\"message\"] = err.Error()\n\tfor key, value := range tags {", "R-TAINT"},
+	// round 9
+	{"C20", "status message sanitised with an invalid replacement", "grpc/middleware/server.go", `strings\.ToValidUTF8\(err\.Error\(\), "\\uFFFD"\)`, `strings.ToValidUTF8(err.Error(), "\xff")`, "R-GRPC-FLOW"},
+	{"C20", "status message trimmed instead of sanitised", "grpc/middleware/server.go", `strings\.ToValidUTF8\(err\.Error\(\), "\\uFFFD"\)`, `strings.TrimSpace(err.Error())`, "R-GRPC-FLOW"},
+	{"C20", "client looks at the first detail only", "grpc/middleware/client.go", `for _, det := range st\.Details\(\) \{`, `for _, det := range st.Details()[:1] {`, "R-GRPC-FLOW"},
+	{"C06", "redactable-mode printer writes with plain fmt", "errbase/format_error.go", `redact\.Fprint\(\(\*state\)\(s\), args\.\.\.\)`, `fmt.Fprint((*state)(s), args...)`, "R-SAFE-SINK"},
+	{"C03", "redactable-mode Printf writes with plain fmt", "errbase/format_error.go", `redact\.Fprintf\(\(\*state\)\(s\), format, args\.\.\.\)`, `fmt.Fprintf((*state)(s), format, args...)`, "R-SAFE-SINK"},
+	{"C09", "final buffer handed to Fprintf as bytes", "errbase/format_error.go", `fmt\.Fprintf\(p\.State, format, p\.finalBuf\.String\(\)\)`, `fmt.Fprintf(p.State, format, p.finalBuf.Bytes())`, "R-FINISH"},
+	{"C09", "final buffer handed to Fprintf through a local string", "errbase/format_error.go", `fmt\.Fprintf\(p\.State, format, p\.finalBuf\.String\(\)\)`, "txt := p.finalBuf.String()\n\t\tfmt.Fprintf(p.State, format, txt)", CleanVariant},
+	{"C09", "bad-verb notation re-formatted", "errbase/format_error.go", `\t\tp\.finalBuf\.WriteByte\('\)'\)\n\t\tio\.Copy\(s, &p\.finalBuf\)`, "\t\tp.finalBuf.WriteByte(')')\n\t\tfmt.Fprintf(s, \"%s\", p.finalBuf.String())", "R-FINISH"},
+	{"C02", "domain detail written through a formatter", "domains/with_domain.go", `return \[\]string\{string\(e\.domain\)\}`, `return []string{fmt.Sprint(string(e.domain))}`, "R-CODEC"},
+	{"C02", "domain detail written through a local", "domains/with_domain.go", `return \[\]string\{string\(e\.domain\)\}`, "d := string(e.domain)\n\treturn []string{d}", CleanVariant},
+	{"C18", "stack appended onto the error's own safe details", "errbase/safe_details.go", `\t\treturn sd\.SafeDetails\(\)\n`, "\t\treturn append(sd.SafeDetails(), \"-\")\n", "R-EFFECT"},
+	{"C19", "key-only tags skipped by the string test", "contexttags/contexttags.go", `\t\tif v == nil \{\n\t\t\treturn true\n\t\t\}\n\t\tif _, ok := v\.\(string\); !ok \{`, "\t\tif v == nil {\n\t\t\tcontinue\n\t\t}\n\t\tif _, ok := v.(string); !ok {", "R-TAGS-STRINGS"},
+	{"C19", "nil test folded into the string test", "contexttags/contexttags.go", `\t\tv := t\.Value\(\)\n\t\tif v == nil \{\n\t\t\treturn true\n\t\t\}\n\t\tif _, ok := v\.\(string\); !ok \{`, "\t\tif _, ok := t.Value().(string); !ok {", CleanVariant},
+	{"C07", "first collected error argument becomes the cause", "errutil/utilities.go", `err = &withNewMessage\{cause: wrappedErr, message: redactable\}`, `err = &withNewMessage{cause: errRefs[0], message: redactable}`, "R-ARG-NOT-CAUSE"},
+	{"C16", "package domain derived from the caller's function name", "domains/domains.go", `_, f, _, _ := runtime\.Caller\(1 \+ depth\)\n\treturn Domain\("error domain: pkg " \+ filepath\.Dir\(f\)\)`, "pc, _, _, _ := runtime.Caller(1 + depth)\n\treturn Domain(\"error domain: pkg \" + filepath.Dir(runtime.FuncForPC(pc).Name()))", "R-PKG-DOMAIN"},
+	{"C19", "join of one error returns it", "join/join.go", `\tif n == 0 \{\n\t\treturn nil\n\t\}\n`, "\tif n == 0 {\n\t\treturn nil\n\t}\n\tif n == 1 {\n\t\tfor _, err := range errs {\n\t\t\tif err != nil {\n\t\t\t\treturn err\n\t\t\t}\n\t\t}\n\t}\n", "R-JOIN-NODE"},
 }
